@@ -35,6 +35,20 @@ type Opts struct {
 	ExoticNames            bool // method, variable and class names may contain `_`, `$` (not class names) and letters outside ASCII (run$impl, _tmp, größe, 値); packages with digits and underscores (C05)
 	LongLines              bool // physical lines of any length: parameter lists of 20-120 further parameters on one line, names of 41-300 and rarely 4100-5200 characters, a member or a whole unit written on one line, long block comments and string literals in front of declarations (C01)
 	UnqualifiedForeign     bool // unqualified calls that do not name a method of the class itself: a method inherited from the project superclass, a static method of a project class brought in by `import static pkg.P.m;` or `import static pkg.P.*;`; the on-demand form is also written as a mere decoy next to own methods of the same name (C02)
+	KeywordNames           bool // method, variable and field names may be contextual keywords of newer Java versions (record, open, to, with, module, permits, ...) and, like class names, single letters (audit_c01.go) (C01)
+	TwinNames              bool // two classes may bear one simple name in two packages (referred to only where the name is unambiguous: from the own package, or through a single-type import where the own package has no such class); a class name may start with the whole name of another class (audit_c01.go) (C01)
+	DeclForms              bool // further spellings of declarations: annotation arguments of more kinds (empty list, negative number, char, string with commas / parentheses / escaped quotes, class literal, expression, empty array, nested annotations, arguments over several lines), an annotation / final / strictfp among the class modifiers, bounded and several type parameters, a superclass written with its qualified name, throws clauses of constructors, interface methods that are default / static with a body, redundantly abstract, annotated or throwing, a stray `;` after a member or the type (audit_c01.go) (C01)
+	ManyMembers            bool // now and then a type with 13-70 methods (C01)
+	AnonBodies             bool // with Anon: the anonymous classes written as arguments may have richer bodies: one or two methods over several lines or on one, holding a creation, a local declaration with a call on it, calls on the parameters / locals / fields of the enclosing method (audit_c02.go) (C02)
+	AssignedCreations      bool // a local variable of class type may be initialised with an object of another class, and a field / parameter / local of class type may be assigned one (`x = new Other();`, `this.x = new Other();`), also right before a call on it (audit_c02.go) (C02)
+	CaseTwinNames          bool // a class may be named like a class of another package written in another case (Order7 / ORDER7) and then refers to it (audit_c02.go) (C02)
+	ScopeEnds              bool // a variable declared in a group of a switch ends with the switch; lambdas with typed parameters `(Foo x) -> x.m()`; with ScopedReuse both may be named like a field they hide, which is called right afterwards (audit_c02.go) (C02)
+	CallLayout             bool // a blank or a comment between a callee / created type and its `(`; two blanks, a comment or a line end between `new` and the type; generic creations `new ArrayList<>()`, `new ArrayList<String>(n)` (audit_c02.go) (C02)
+	OwnTypeVars            bool // a class may hold a field of its own type, so that parameters, locals, loop variables, creations and static calls of the enclosing class itself occur (audit_c02.go) (C02)
+	ReturnCalls            bool // return statements that carry an invocation or creation, and early returns that end a nested block (audit_c02.go) (C02)
+	FieldForms             bool // fields of project classes may be annotated (@Autowired on the same or the line before), static / transient / volatile, and declared two to a declaration (`Foo a, b;`) (audit_c02.go) (C02)
+	TwinReferrers          bool // with TwinNames: a class of the package of one of two namesakes refers to its package mate (audit_c02.go) (C02)
+	InterfaceBodies        bool // methods of interfaces may be `default` or `static` methods with a body (audit_c02.go) (C02)
 }
 
 // Ann is an annotation as the model records it.
@@ -181,6 +195,7 @@ func GenProject(t *rapid.T, o Opts) Project {
 	g := &gen{t: t, o: o, names: NewNames()}
 	g.names.Words = o.WordNames
 	g.names.Exotic, g.names.Long = o.ExoticNames, o.LongLines
+	g.names.Special = o.KeywordNames
 	pkgPool := pkgPool
 	if o.ExoticNames {
 		pkgPool = append(append([]string(nil), pkgPool...), exoticPkgs...)
@@ -245,6 +260,12 @@ func GenProject(t *rapid.T, o Opts) Project {
 				}
 			}
 		}
+		if o.TwinNames {
+			g.twin(&s, layout)
+		}
+		if o.CaseTwinNames {
+			g.caseTwin(&s, pkgs)
+		}
 		if o.Layout {
 			switch rapid.IntRange(0, 9).Draw(t, "role") {
 			case 7, 8:
@@ -258,6 +279,9 @@ func GenProject(t *rapid.T, o Opts) Project {
 		nm := rapid.IntRange(0, o.MaxMethods).Draw(t, "nMethods")
 		if nm == o.MaxMethods && rapid.IntRange(0, 5).Draw(t, "manyMethods") == 5 {
 			nm = rapid.IntRange(o.MaxMethods, 12).Draw(t, "nMethodsMany")
+			if o.ManyMembers && rapid.IntRange(0, 3).Draw(t, "veryManyMethods") == 3 {
+				nm = rapid.IntRange(13, 70).Draw(t, "nMethodsVeryMany")
+			}
 		}
 		for j := 0; j < nm; j++ {
 			ms := methodSig{name: g.names.Method(t), nParams: rapid.IntRange(0, 3).Draw(t, "nParams")}
@@ -361,6 +385,9 @@ func GenProject(t *rapid.T, o Opts) Project {
 			}
 		}
 	}
+	if o.TwinReferrers {
+		g.twinReferrers()
+	}
 	for i := range g.sigs {
 		text, truth := g.unit(i)
 		p.Files = append(p.Files, File{Path: g.sigs[i].path, Text: text})
@@ -430,6 +457,9 @@ func (g *gen) collaborators(i int) []int {
 			out = append(out, j)
 		}
 	}
+	if g.o.TwinNames {
+		out = g.untwin(i, out)
+	}
 	return out
 }
 
@@ -464,6 +494,7 @@ type unitCtx struct {
 	budget   int
 	superIdx int // index of the project superclass, -1 if none
 	foreign  []foreignCallee // methods of other classes that an unqualified call may name (Opts.UnqualifiedForeign)
+	curRet   string          // return type of the method being written, "" in a constructor (Opts.ReturnCalls)
 }
 
 func (g *gen) unit(i int) (string, UnitTruth) {
@@ -496,6 +527,9 @@ func (g *gen) unit(i int) (string, UnitTruth) {
 			chosen = append(chosen, ref)
 			sort.Ints(chosen)
 		}
+		if g.o.TwinNames && (g.o.CaseTwinNames || g.o.TwinReferrers) {
+			chosen = g.keepRefUnambiguous(i, ref, chosen)
+		}
 	}
 	var exts []int
 	for xi := range externals {
@@ -515,6 +549,15 @@ func (g *gen) unit(i int) (string, UnitTruth) {
 			if g.sigs[c].kind == "Class" {
 				superIdx = c
 				break
+			}
+		}
+	}
+	if g.o.TwinNames {
+		if f := g.twinSuper(i); f >= 0 {
+			superIdx = f
+			if !contains(chosen, f) {
+				chosen = append(chosen, f)
+				sort.Ints(chosen)
 			}
 		}
 	}
@@ -559,6 +602,9 @@ func (g *gen) unit(i int) (string, UnitTruth) {
 			if g.o.WildcardProjectImports {
 				// 0: the single-type import (plain); 1: only a wildcard import of the package; 2: both
 				form := rapid.IntRange(0, 2).Draw(t, "projectImportForm")
+				if g.o.TwinNames && g.hasNamesake(c) {
+					form = 0 // a namesake is only reached through its single-type import
+				}
 				if form >= 1 {
 					dup := false
 					for _, im := range imps {
@@ -705,6 +751,9 @@ func (g *gen) unit(i int) (string, UnitTruth) {
 	if s.abstract {
 		decl += "abstract "
 	}
+	if g.o.DeclForms {
+		decl += u.classModsMore()
+	}
 	if s.kind == "Class" {
 		decl += "class " + s.name
 	} else {
@@ -713,7 +762,7 @@ func (g *gen) unit(i int) (string, UnitTruth) {
 	typeParam := ""
 	if rapid.IntRange(0, 5).Draw(t, "typeParam") == 0 {
 		typeParam = "T"
-		decl += "<T>"
+		decl += g.typeParamText()
 	}
 	if s.kind == "Class" {
 		switch {
@@ -723,11 +772,20 @@ func (g *gen) unit(i int) (string, UnitTruth) {
 			truth.ExtendsRaw = sup.name
 			truth.ExtendsFull = sup.full()
 			u.used[sup.name] = true
+			if g.o.DeclForms && strings.Contains(sup.pkg, ".") && rapid.IntRange(0, 5).Draw(t, "qualifiedSuper") == 5 {
+				// the superclass written with its qualified name
+				decl = strings.TrimSuffix(decl, sup.name) + sup.full()
+				truth.ExtendsRaw = sup.full()
+			}
 		case extKind == 7 && contains(exts, 3): // imported external class
 			decl += " extends ArrayList<String>"
 			truth.ExtendsRaw = "ArrayList<String>"
 			truth.ExtendsFull = "ArrayList<String>"
 			u.used["ArrayList"] = true
+		case extKind == 4 && g.o.DeclForms:
+			decl += " extends java.util.ArrayList<String>"
+			truth.ExtendsRaw = "java.util.ArrayList<String>"
+			truth.ExtendsFull = "java.util.ArrayList<String>"
 		case extKind == 6:
 			decl += " extends Exception"
 			truth.ExtendsRaw = "Exception"
@@ -778,9 +836,11 @@ func (g *gen) unit(i int) (string, UnitTruth) {
 			if strings.Contains(mod, "final") || rapid.IntRange(0, 3).Draw(t, "fieldInit") == 0 {
 				init = " = new " + g.sigs[c].name + "()"
 			}
-			w.S(u.indent + mod + g.sigs[c].name + " " + name + init + ";\n")
+			moreFields := u.classFieldLine(mod, c, name, init)
 			truth.Fields = append(truth.Fields, Param{g.sigs[c].name, name})
+			truth.Fields = append(truth.Fields, moreFields...)
 		}
+		u.ownTypeField()
 		nf := rapid.IntRange(0, 3).Draw(t, "nPlainFields")
 		for k := 0; k < nf; k++ {
 			name := u.fieldName()
@@ -877,6 +937,7 @@ func (g *gen) unit(i int) (string, UnitTruth) {
 		} else {
 			u.method(s.methods[m.idx], exts, typeParam)
 		}
+		w.S(u.afterMember("semicolonAfterMember"))
 		if flatMember {
 			w.SetFlat(false)
 		}
@@ -931,7 +992,7 @@ func (g *gen) unit(i int) (string, UnitTruth) {
 		truth.Fields = append(truth.Fields, Param{g.sigs[c].name, name})
 		u.used[g.sigs[c].name] = true
 	}
-	w.S("}\n")
+	w.S("}" + u.afterMember("semicolonAfterType") + "\n")
 	if rapid.IntRange(0, 4).Draw(t, "noFinalNewline") == 0 {
 		// drop the final newline
 		text := w.String()
@@ -1092,6 +1153,11 @@ func (g *gen) comment(label string) string {
 // annotation draws a class-level annotation and its expected model form.
 func (g *gen) annotation() (Ann, string) {
 	t := g.t
+	if g.o.DeclForms {
+		if a, text, ok := g.annotationMore(); ok {
+			return a, text
+		}
+	}
 	switch rapid.IntRange(0, 5).Draw(t, "annForm") {
 	case 0:
 		return Ann{Name: "Deprecated"}, "@Deprecated"
